@@ -103,7 +103,7 @@ def _case(draw, tier):
     overrides = []
     nex = 0
     for a in keys:
-        mode = draw(st.sampled_from(['self', 'other', 'other']))
+        mode = draw(st.sampled_from(['self', 'other', 'other', 'self-wide', 'wide']))
         c, _n = H.avoid_known_shapes(draw(H.hint_nodes(draw(st.sampled_from([0, 0, 1])), hashable=True)))
         # the replacement must not mention any override key or tower class except the documented A | C form
         if contains_key(c, KEYS):
@@ -113,7 +113,13 @@ def _case(draw, tier):
         if any(k in ('any',) for k in H.node_kinds(c)) or H.mentions_tv(c, 'VT'):
             c = ['cls', 'int']
             nex += 1
-        b = ['union', [a, c], 'U'] if mode == 'self' else c
+        if mode in ('self-wide', 'wide'):
+            # replacement = a union with more members than the unions the key usually sits in (Optional[A], A | int)
+            extra = draw(st.lists(st.sampled_from([['cls', 'int'], ['cls', 'str'], ['cls', 'VBase'], ['cls', 'bool'], ['none']]),
+                                  min_size=2, max_size=4, unique_by=_canon))
+            b = ['union', ([a] if mode == 'self-wide' else []) + extra, draw(st.sampled_from(['U', 'P']))]
+        else:
+            b = ['union', [a, c], 'U'] if mode == 'self' else c
         overrides.append([a, b])
     targets = [a for a, _b in overrides] + ([['cls', 'float'], ['cls', 'complex']] if tower else [])
     depth = draw(st.sampled_from([0, 1, 1, 2, 2, 3] + ([4] if tier == 'thorough' else [])))
@@ -123,9 +129,10 @@ def _case(draw, tier):
     if not hits:
         # make sure at least one rewritten sub-hint is present
         t = draw(st.sampled_from(targets))
-        wrap = draw(st.sampled_from(['bare', 'list', 'dictv', 'tup', 'opt', 'set']))
+        wrap = draw(st.sampled_from(['bare', 'list', 'dictv', 'tup', 'opt', 'opt', 'set', 'union2', 'listopt']))
         node = {'bare': t, 'list': ['seq', 'list', t], 'dictv': ['map', 'dict', ['cls', 'str'], t],
                 'tup': ['tupf', [['cls', 'int'], t], 't'], 'opt': ['union', [t], 'O'],
+                'union2': ['union', [t, ['cls', 'VDerived']], 'U'], 'listopt': ['seq', 'list', ['union', [t], 'O']],
                 'set': ['reit', 'frozenset', t] if H.hashable_node(t) else ['seq', 'Sequence', t]}[wrap]
         hits = [0 if wrap == 'bare' else 1]
     node = H.merge_nested_annotated(node)
